@@ -21,6 +21,7 @@ type pfGen struct {
 	inited map[string]bool
 	isStr  map[string]bool // name may hold a non-number
 	a, b   strings.Builder // program A (constants inline) / B (constants as parameters)
+	busy   map[string]bool // loop-control variables of the loop being generated: never assigned in its body
 }
 
 var pfPool = []string{"a", "b", "c", "d"}
@@ -92,8 +93,8 @@ func (g *pfGen) body(open bool) {
 	for i, n := 0, 1+g.r.Intn(2); i < n; i++ {
 		g.obs()
 	}
-	if g.r.Intn(5) == 0 {
-		g.assign(pfPool[g.r.Intn(4)], g.intConst())
+	if x := pfPool[g.r.Intn(4)]; g.r.Intn(5) == 0 && !g.busy[x] {
+		g.assign(x, g.intConst())
 	}
 	if open {
 		g.both("}\n")
@@ -107,7 +108,9 @@ func (g *pfGen) control(t *lib.Trace) {
 		t.Count("pf:for-classic")
 		g.both(fmt.Sprintf("for (%s = 0; %s < 3; ++%s)\n", v, v, v))
 		g.inited[v] = true
+		g.busy = map[string]bool{v: true}
 		g.body(true)
+		g.busy = nil
 	case 1:
 		v := g.loopVar()
 		t.Count("pf:for-in")
